@@ -3,8 +3,8 @@ from gcv import typestate
 from gcv.props import common, C03 as c03
 
 
-def run(chk, tier):
-    prog, T = typestate.engine("default")
+def run_config(chk, tier, cfgname):
+    prog, T = typestate.engine(cfgname)
     chk.explain("C07: a MarkedArena is returned exactly when the call ends Marked (protocol rows of mark_debt / "
                 "finish_marking: Some iff phase=Mark and no gray work or root trace pending); is_dead == colour in "
                 "{White, WhiteWeak} for Gc and GcWeak; resurrect turns a dead undestructed object Gray and queued "
@@ -41,3 +41,17 @@ def run(chk, tier):
     chk.inst("MarkedArena-constructed-only-by-protocol-checked-methods", "arena::MarkedArena", not bad,
              detail="MarkedArena constructed in %s, whose Some/None contract is not covered by the protocol rows" % bad)
     typestate.report_automaton(chk, ["S2", "S7"])
+
+
+def run(chk, tier):
+    cfgs = typestate.configs(tier)
+    chk.extra["feature_configs"] = cfgs
+    for c in cfgs:
+        chk.cfg = c
+        n_expl = len(chk.explanation)
+        nd = len(chk.not_decided)
+        run_config(chk, tier, c)
+        if c != cfgs[0]:
+            del chk.explanation[n_expl:]
+            del chk.not_decided[nd:]
+    chk.cfg = None
